@@ -10,6 +10,21 @@ StringArray include_paths;
 char *base_file = "base.c";
 
 // ---- tokenize.c: token predicates (same semantics as the real ones, bounded loops)
+// pack a spelling of <= 7 bytes into an integer; written as straight-line expressions so that
+// symbolic execution folds it in a handful of steps for string literals
+static int64_t verif_spell(const char *s) {
+  int n = !s[0] ? 0 : !s[1] ? 1 : !s[2] ? 2 : !s[3] ? 3 : !s[4] ? 4 : !s[5] ? 5 : !s[6] ? 6 : !s[7] ? 7 : 8;
+  if (n > 7) return -1;       // longer spellings are not representable: no harness token has one
+#define VSB(i) ((int64_t)(n > (i) ? (unsigned char)s[i] : 0) << (8 * (i)))
+  int64_t v = VSB(0) | VSB(1) | VSB(2) | VSB(3) | VSB(4) | VSB(5) | VSB(6);   // 7 bytes + length nibble fit in 63 bits
+  return (v << 4) | n;
+}
+#ifdef VERIF_PACKED_SPELLING
+// Harness invariant in this mode: every token carries val == verif_spell(its spelling) (set by the
+// harness's token constructor; copy_token preserves it).  equal() then needs no character
+// dereference through a symbolic Token pointer (which cbmc 6.11 handles very slowly).
+bool equal(Token *tok, char *op) { return tok->val == verif_spell(op); }
+#else
 bool equal(Token *tok, char *op) {
   // tok->len == strlen(op) && bytes equal; loop bound is the (concrete) length of `op`
   int n = 0;
@@ -18,6 +33,7 @@ bool equal(Token *tok, char *op) {
     if (n < tok->len && tok->loc[n] != op[n]) same = false;
   return same && tok->len == n;
 }
+#endif
 noreturn void error(char *fmt, ...) { verif_exit(1); }
 noreturn void error_at(char *loc, char *fmt, ...) { verif_exit(1); }
 noreturn void error_tok(Token *tok, char *fmt, ...) { verif_exit(1); }
@@ -120,12 +136,12 @@ char *format(char *fmt, ...) {
 static struct { HashMap *map; uint64_t key; void *val; bool live; } verif_hm[VERIF_HM_MAX];
 static uint64_t verif_pack(char *key, int keylen) {
   VASSERT(keylen >= 0 && keylen <= 8, "harness bound: hashmap keys are at most 8 bytes");
-  uint64_t v = keylen;
+  uint64_t v = 0;
   for (int k = 0; k < 8; k++) {
-    v = v * 256;
-    if (k < keylen) v += (unsigned char)key[k];
+    v = v << 8;                                   // (shifts, not multiplications: no multiplier circuits)
+    if (k < keylen) v |= (unsigned char)key[k];
   }
-  return v * 16 + keylen;
+  return v ^ ((uint64_t)keylen << 60);
 }
 static int verif_hm_find(HashMap *map, uint64_t key) {
   int r = -1;
